@@ -284,7 +284,61 @@ class C04(Check):
         # stream of ordinary histories is what it was)
         for _ in range(min(8, n // 700)):
             out.append(self._gen_long(rng))
+        # amounts beyond 2**53 (where integers and doubles part ways) and stores with more than 100 loans open at once,
+        # drawn from their own PRNG stream (the other histories stay what they were)
+        rng2 = random.Random(f"C04:wide:{self.seed}:{n}")
+        for _ in range(max(6, n // 100)):
+            out.append(self._gen_huge(rng2))
+        for _ in range(max(3, n // 250)):
+            out.append(self._gen_loans(rng2))
         return out
+
+    def _gen_huge(self, rng):
+        """Two or three stores with capacities around 2**54..2**60; amounts that are odd integers beyond 2**53 (not
+        representable as doubles), moved by transfer / regenerate / consume."""
+        ns = rng.choice([2, 2, 3])
+        big = [2 ** 53 + 1, 2 ** 53 + 3, 2 ** 54 + 2, 2 ** 54 + 6, 10 ** 16 + 3, 10 ** 16 + 1, 2 ** 55 + 12, 3 * 2 ** 53 + 5,
+               2 ** 53 - 1, 2 ** 53, 10 ** 17 + 9]
+        cfgs = [{"budget": rng.choice([2 ** 58, 2 ** 60, 10 ** 18, 2 ** 57 + 1]), "gtp": rng.choice([0, 10, 2 ** 55]),
+                 "nadh": rng.choice([0, 8, 2 ** 54 + 1]), "max_debt": rng.choice([0, 100, 2 ** 56]),
+                 "rate": rng.choice(RATES)} for _ in range(ns)]
+        ops = []
+        for _k in range(rng.choice([4, 8, 12, 20])):
+            i, j = rng.randrange(ns), rng.randrange(ns)
+            t = rng.choice(["ATP", "ATP", "ATP", "GTP", "NADH"])
+            a = rng.choice(big) + rng.choice([0, 0, 2, 4, 1024])
+            r = rng.random()
+            if r < 0.35:
+                ops.append(["consume", i, a, t, rng.random() < 0.6, rng.choice([5, 10, 12])])
+            elif r < 0.65:
+                ops.append(["transfer", i, j, a, t])
+            elif r < 0.85:
+                ops.append(["regen", i, a, t])
+            elif r < 0.92:
+                ops.append(["convert", i, a])
+            else:
+                ops.append(rng.choice([["interest", i], ["report", i], ["wake", i]]))
+        ops.append(["report", 0])
+        return {"stores": cfgs, "ops": ops}
+
+    def _gen_loans(self, rng):
+        """A long-lived store that keeps borrowing: more than 100 (up to ~300) overdrafts and interest bookings open at
+        once under a debt limit above that, then spends up to and past the limit."""
+        limit = rng.choice([150, 300, 1000])
+        cfgs = [{"budget": rng.choice([0, 3, 10]), "gtp": 0, "nadh": rng.choice([0, 2]), "max_debt": limit,
+                 "rate": rng.choice([0.0, 0.0, 0.05, 0.1]), "silent": True}]
+        ops = []
+        for k in range(rng.choice([105, 130, 210, 320])):
+            ops.append(["consume", 0, rng.choice([1, 1, 1, 2]), "ATP", True, rng.choice([5, 10, 12])])
+            if k % 97 == 50 and rng.random() < 0.5:
+                ops.append(["interest", 0])
+            if k % 60 == 59:
+                ops.append(["report", 0])
+        ops.append(["report", 0])
+        for _k in range(rng.choice([3, 6])):
+            ops.append(["consume", 0, rng.choice([1, limit // 2, limit, limit + 1]), "ATP", True, 10])
+        ops += [["regen", 0, rng.choice([1, 50, limit]), "ATP"], ["report", 0], ["consume", 0, 5, "ATP", True, 10], ["report", 0]]
+        return {"stores": cfgs, "ops": ops}
 
     # -- widening: client-side variation that must be invisible ------------------
     def _decorate(self, case, config_only=False):
